@@ -42,7 +42,7 @@ def c06(c):
              "for stores/loads/arguments/results on the model backends; oracle = 128-bit integer comparison with the limits of "
              "the destination type. Sources of <=16 bits (quick) / <=32 bits (thorough) are enumerated completely per pair "
              "(counted by the loop counters, no repetition by construction); sampled pairs contribute one fingerprint per "
-             "(pair, oracle branch). Non-trivial = the oracle prescribes an outcome (always, for integers). Compound stores (0 += v, 0 |= v on the sandbox cell) are judged like plain stores.",
+             "(pair, oracle branch). Non-trivial = the oracle prescribes an outcome (always, for integers). Compound stores (0 += v, 0 |= v on the sandbox cell) are judged like plain stores. Array conversions also with std::array<volatile T,N> destinations and sources.",
         exhaustive=False,
         exhaustive_subspaces=["all source values of every ordered pair with a source type of <=16 bits (quick) / <=32 bits (thorough)"],
         assumptions=["two's-complement host; flag-mode abort capture continues after a failed dynamic_check (leaf computation has no side effects)",
@@ -138,7 +138,7 @@ def c16(c):
              "behaviour (validity decided in 128-bit arithmetic; the UBSan build also proves the reference never evaluates UB). "
              "distinct_nontrivial = number of driven forms that judged at least one operand pair. The forms that store into sandbox memory "
              "(thorough: every form with a sandbox-resident operand) are driven again on the WIDE model backend (cells wider than the application "
-             "type); int/int and long/long forms are must-compile units.",
+             "type); int/int and long/long forms are must-compile units. Mixed pairs include same-rank signed/unsigned; an abort of a compound update is accepted only when the value the operand would hold afterwards does not fit the stored type.",
         exhaustive=False,
         exhaustive_subspaces=["all 65536 operand pairs of every drivable form whose operand types are both 8-bit"],
         assumptions=["gcc's accept/reject decides only which forms exist as programs; it is never the oracle",
@@ -307,7 +307,7 @@ def c20(c):
              "must show identical values; (c) sandbox_static_cast for all 15x15 arithmetic/enum pairs from tainted and from sandbox-resident "
              "tainted_volatile sources against the C++ cast (only where the C++ cast is defined); (d) sandbox_reinterpret/const/static_cast on "
              "pointers: designated address unchanged, null preserved, source cell unchanged; (e) optimised uninstrumented builds (g++ -O2, g++ -O3, "
-             "clang -O2): arrays through to_opaque/from_opaque in an application struct, then indexed. Distinct = (kind, type or type pair, source wrapper). sandbox_static_cast between class pointers of a multiple-inheritance hierarchy in both directions at both edges of the region; set_zero on every non-enum opaque value.",
+             "clang -O2): arrays through to_opaque/from_opaque in an application struct, then indexed. Distinct = (kind, type or type pair, source wrapper). sandbox_static_cast between class pointers of a multiple-inheritance hierarchy in both directions at both edges of the region; set_zero on every non-enum opaque value. Class-pointer casts with the operand as tainted value and as pointer cell.",
         exhaustive=False,
         exhaustive_subspaces=["all bit patterns of 8- and 16-bit types for the opaque round trip and as static_cast sources (sub-sampled above 3000 values per pair)"],
         assumptions=["model backend ILP32 (quick) plus NARROW and WIDE (thorough)"]))
@@ -376,7 +376,7 @@ def c03(c):
              "interior; after every step either an abort was observed or the pointer is null or inside the region of the sandbox it came from; "
              "(c) representations 0..2^32-1 through load-cell and load-array-element (stride 509 quick, every value thorough). "
              "Dereferences whose pointee straddles the region end are not generated (no prescribed outcome); address computations on them are. "
-             "distinct_nontrivial = distinct (instance, representation) pairs + distinct chain histories + swept representations. Hostile allocator answers (c03_alloc, ILP32 mask-membership model with unconfined translation): representations outside the region, before its start, straddling its end, wrapping; the address malloc_in_sandbox hands out must be null or inside the region, else abort.",
+             "distinct_nontrivial = distinct (instance, representation) pairs + distinct chain histories + swept representations. Hostile allocator answers (c03_alloc, ILP32 mask-membership model with unconfined translation): representations outside the region, before its start, straddling its end, wrapping; the address malloc_in_sandbox hands out must be null or inside the region, else abort. Chains from a null pointer to an array.",
         exhaustive=False,
         exhaustive_subspaces=["thorough tier only: all 2^32 guest representations through the memory-cell and array-element load positions"],
         assumptions=["inside-ness of a translated representation is the model backend's masking guarantee; the check tests RLBox's plumbing (translation applied, right instance)"]))
@@ -511,7 +511,7 @@ def c10(c):
              "wholly outside every region): illegal => abort / allocation failure; legal => no abort and exactly the specified effect (region "
              "byte diff, memcmp sign, delivered content); everything outside the given ranges is ASan-poisoned during the call; empty requests are "
              "not judged except that they must not write. Where host and guest element sizes differ the oracle requires abort only if illegal "
-             "under both readings and success only if legal under both. copy_and_verify_range is additionally judged by element semantics on the WIDE and NARROW models (char, short, char16_t, char32_t, wchar_t, long, double; source in the interior and flush against the end of the region): the verifier receives exactly the count elements held. c10_alloc: hostile allocator answers at every distance 0..n*size+2 from the end of the region for char, short, char16_t, wchar_t, float, double (1 and 3 elements) on the copy path of copy_memory_or_grant_access. c10_wideint: __int128 / unsigned __int128 size operands of memset/memcpy/memcmp (GNU dialect).",
+             "under both readings and success only if legal under both. copy_and_verify_range is additionally judged by element semantics on the WIDE and NARROW models (char, short, char16_t, char32_t, wchar_t, long, double; source in the interior and flush against the end of the region): the verifier receives exactly the count elements held. c10_alloc: hostile allocator answers at every distance 0..n*size+2 from the end of the region for char, short, char16_t, wchar_t, float, double (1 and 3 elements) on the copy path of copy_memory_or_grant_access. c10_wideint: __int128 / unsigned __int128 size operands of memset/memcpy/memcmp (GNU dialect). c10_overlap (rlbox::memcpy on overlapping sandbox ranges, memmove semantics, ASan and -O2); c10_alloc on ILP32 and WIDE; deny_edge at every aligned distance from the end of the region; malloc-size probe for cv-qualified, array and multi-dimensional spellings; memcmp sources as pointer cells of another instance; c10_grantcap with wrap-window counts from a buffer above the region.",
         exhaustive=False,
         assumptions=["overlapping source/destination inside the sandbox is not driven (std::memcpy semantics undefined)"]))
 
@@ -551,7 +551,7 @@ def c13(c):
              "expected abort ends a history. Random: histories of 60 (quick) / 300 (thorough) steps with pools smaller than, nearly as large as and "
              "larger than the entry-point table, plus capacity accounting probes (the backend must accept exactly capacity-minus-live more "
              "registrations) and a complete fill of the table. Backends: model (8 entry points), noop and dylib (64). "
-             "distinct_nontrivial = replayed exhaustive sequences + distinct random histories. Concurrent histories on one noop sandbox (c13_concurrent): 2..8 threads register, duplicate-register, unregister, destroy and overwrite owners of disjoint function sets with PRNG yields after every lock acquisition/release; per-thread single-threaded oracle on own functions, whole-set registrability oracle at barriers; TSan, ASan, plain builds; schedules sampled, contended acquisitions counted. A refused registration does not end a history.",
+             "distinct_nontrivial = replayed exhaustive sequences + distinct random histories. Concurrent histories on one noop sandbox (c13_concurrent): 2..8 threads register, duplicate-register, unregister, destroy and overwrite owners of disjoint function sets with PRNG yields after every lock acquisition/release; per-thread single-threaded oracle on own functions, whole-set registrability oracle at barriers; TSan, ASan, plain builds; schedules sampled, contended acquisitions counted. A refused registration does not end a history. The exhaustive alphabet is explored a second time from the second incarnation with a stale owner around.",
         exhaustive=False,
         exhaustive_subspaces=["all operation sequences of length 3 (quick) / 4 (thorough) over 2 functions and 3 owners, per backend"],
         assumptions=["owners whose sandbox incarnation was destroyed are not judged, only that unregistering/destroying them is harmless",
@@ -788,7 +788,7 @@ def c09(c):
              "fundamental (direct and through a sandbox-resident pointer), pointer to struct, volatile struct, volatile array, copy_and_verify_range "
              "(char, long), copy_and_verify_string (both verifier flavours; empty, length 1, 12, 40, terminator in the last byte of the region), "
              "copy_and_verify_address, copy_and_verify_buffer_address, copy_memory_or_deny_access. Plus a real adversary thread toggling a string "
-             "between two lengths during 20 000 (quick) / 1 000 000 (thorough) calls. An abort is always an acceptable outcome. bool cells (value, pointer, range of 4, array of 4) with actions flip / 0xFF / zero: a byte that is not 0 or 1 has no decoding.",
+             "between two lengths during 20 000 (quick) / 1 000 000 (thorough) calls. An abort is always an acceptable outcome. bool cells (value, pointer, range of 4, array of 4) with actions flip / 0xFF / zero: a byte that is not 0 or 1 has no decoding. The pointer-cell string case uses strings of different length and records the delivered size(); c09_wideconv also swaps the roles (unrepresentable first, small second); representation-preserving copies are judged byte by byte.",
         exhaustive=False,
         exhaustive_subspaces=["every interleave point (each individual access to sandbox memory) of every variant x content, for each single adversary action"],
         assumptions=["single adversary actions are enumerated over every access; sequences of two actions at two accesses are sampled (24 / 400 per variant), longer sequences not driven", "ILP32 model backend (plus the WIDE model for narrowing loads); x86-64 trap flag single-stepping"]))
@@ -936,7 +936,7 @@ def c02(c):
              "came back registered. (b) run-time entry points assign_raw_pointer (tainted and tainted_volatile) and UNSAFE_accept_pointer: abort iff "
              "the address is outside [base, base+size): every address (stride 7 quick, all thorough) in [base-4096, base+size+4096), a window of "
              "another live sandbox, null, stack/heap/global, inside +- k*4GiB aliases, 20 000 / 1 000 000 random 64-bit addresses; when accepted the "
-             "tainted holds exactly the address and the sandbox cell exactly address-base.",
+             "tainted holds exactly the address and the sandbox cell exactly address-base. c02_padding also: images of at most 16 bytes (register-passed), a struct with a long double[2] field built in its own frame from run-time values, a struct without application-side padding whose image has some, whole-struct and whole-array stores read back from sandbox memory; foreign operands also as const-qualified named objects; arrays of unions / pointers to members.",
         exhaustive=False,
         exhaustive_subspaces=["thorough tier: every address of [base-4096, base+size+4096) through the three entry points"],
         assumptions=["gcc's accept/reject is never the oracle"]))
